@@ -808,6 +808,388 @@ struct Gen {
                         op(OP_DRAIN);
                 }
         }
+
+        void in_op(const bytes &data)
+        {
+                Op o;
+                o.kind = OP_IN;
+                o.data = data;
+                p.ops.push_back(o);
+        }
+
+        void faults_maybe()
+        {
+                if (r.coin())
+                        rand_rx_mode();
+                if (r.coin())
+                        rand_tx_mode();
+        }
+
+        // ------------------------------------------------------------ C03R: outside the modelled domain, memory safety only
+        void robustness_extras()
+        {
+                p.scribble = true;
+                p.observe = r.coin();
+                // events on any command, including ones the input addresses at the same time
+                std::vector<Op> ops;
+                for (auto &o : p.ops) {
+                        ops.push_back(o);
+                        if (r.chance(0.15)) {
+                                Op t;
+                                t.kind = OP_TRIG;
+                                t.a = (int64_t)r.below(p.cmds.size());
+                                t.b = r.coin() ? CT_READ : CT_TEST;
+                                ops.push_back(t);
+                        }
+                        if (o.kind == OP_IN && r.chance(0.2) && !ops.back().data.empty() && ops.back().kind == OP_IN) {
+                                bytes &d = ops.back().data;
+                                size_t at = r.below(d.size());
+                                if (d[at] != '\n')
+                                        d[at] = r.coin() ? 0 : (char)r.next();
+                        }
+                }
+                p.ops = ops;
+                for (auto &c : p.cmds) {
+                        if (c.ev && r.chance(0.3)) {
+                                c.disable = false; // reachable event source
+                                if (!c.registered && (p.registered_count() + 1 + 3) / 4 <= p.cmd_cap()) {
+                                        c.registered = true;
+                                        c.group = 0;
+                                }
+                        }
+                        for (int k = 0; k < 4; k++)
+                                for (auto &st : c.script[k]) {
+                                        if (c.ev && r.chance(0.1))
+                                                st.code = RC_HOLD;
+                                        if (st.act == A_TRIG)
+                                                st.act = A_NONE;
+                                }
+                }
+        }
+
+        // ------------------------------------------------------------ C07: read -> write round trips
+        void gen_c07(int qcap, uint64_t idx)
+        {
+                p.qcap = qcap;
+                p.fill = r.next() | 1;
+                p.observe = r.coin();
+                p.mutex = false;
+                p.groups.push_back(GroupSpec());
+                int ncmd = (int)r.range(1, 3);
+                for (int i = 0; i < ncmd; i++) {
+                        CmdSpec c;
+                        c.name = std::string("+") + (char)('A' + i) + rand_name(3);
+                        c.name = mangle_case(c.name, 0.3);
+                        int nv = (int)r.range(1, 6);
+                        for (int v = 0; v < nv; v++) {
+                                VarSpec vs;
+                                vs.type = (int)r.below(5);
+                                if (vs.type <= T_HEX) {
+                                        static const int sz[3] = {1, 2, 4};
+                                        vs.size = sz[r.below(3)];
+                                } else
+                                        vs.size = r.chance(0.7) ? (int)r.range(1, 10) : (int)r.range(1, 64);
+                                vs.access = ACC_RW;
+                                vs.named = r.coin();
+                                if (vs.named)
+                                        vs.name = rand_text(3, false);
+                                vs.rcb = r.chance(0.2);
+                                vs.wcb = r.chance(0.2);
+                                vs.init = rand_value(vs);
+                                c.vars.push_back(vs);
+                        }
+                        c.need_all = r.coin();
+                        c.h[K_WRITE] = r.chance(0.3);
+                        p.cmds.push_back(c);
+                }
+                int nev = r.chance(0.5) ? (int)r.range(1, 2) : 0;
+                for (int i = 0; i < nev; i++) {
+                        CmdSpec c;
+                        c.ev = 1;
+                        c.registered = false;
+                        c.name = "%E" + std::to_string(i);
+                        VarSpec vs = gen_var(false);
+                        vs.rcb = vs.rcb == 2 ? 1 : vs.rcb;
+                        c.vars.push_back(vs);
+                        p.cmds.push_back(c);
+                }
+                // rounds: values first, then the capacity that has to hold the longest text
+                struct Round {
+                        int cmd;
+                        std::vector<bytes> vals;
+                };
+                std::vector<Round> rounds;
+                int nr = (int)r.range(1, 6);
+                size_t need = 0;
+                for (int k = 0; k < nr; k++) {
+                        Round rd;
+                        rd.cmd = (int)r.below((uint64_t)ncmd);
+                        const CmdSpec &c = p.cmds[(size_t)rd.cmd];
+                        std::string text = c.name + "=";
+                        for (size_t v = 0; v < c.vars.size(); v++) {
+                                const VarSpec &vs = c.vars[v];
+                                bytes val = rand_value(vs);
+                                if (vs.type <= T_HEX && vs.size <= 2 && r.chance(0.6)) {
+                                        // sweep: over many run indices every 8/16-bit pattern is visited
+                                        uint64_t x = vs.size == 1 ? (idx + (uint64_t)k * 37 + v * 11) & 0xff : (idx * 7 + (uint64_t)k * 8191 + v * 257) & 0xffff;
+                                        for (int b = 0; b < vs.size; b++)
+                                                val[(size_t)b] = (char)(x >> (8 * b));
+                                }
+                                rd.vals.push_back(val);
+                                std::string t;
+                                fmt_var(vs, val, t);
+                                text += t;
+                                if (v + 1 < c.vars.size())
+                                        text += ",";
+                        }
+                        need = std::max(need, text.size() + 1);
+                        rounds.push_back(rd);
+                }
+                int cap = (int)std::max<size_t>(6, need + (r.chance(0.4) ? 0 : (size_t)r.range(1, 24)));
+                p.shared = r.chance(0.6);
+                if (p.shared) {
+                        p.buf_size = cap * 2 + (int)r.below(2);
+                } else {
+                        p.buf_size = cap;
+                        p.ubuf_size = (int)r.range(0, 64);
+                }
+                ms.init(p);
+                if (r.chance(K.p_faults))
+                        faults_maybe();
+                for (auto &rd : rounds) {
+                        for (size_t v = 0; v < rd.vals.size(); v++) {
+                                Op o;
+                                o.kind = OP_SETVAR;
+                                o.a = rd.cmd;
+                                o.b = (int64_t)v;
+                                o.data = rd.vals[v];
+                                p.ops.push_back(o);
+                        }
+                        if (nev && r.chance(0.5))
+                                op(OP_TRIG, ncmd + (int)r.below((uint64_t)nev), r.coin() ? CT_READ : CT_TEST);
+                        op(OP_ROUNDTRIP, rd.cmd);
+                        if (r.chance(0.3))
+                                faults_maybe();
+                }
+                op(OP_DRAIN);
+        }
+
+        // ------------------------------------------------------------ C12: stimuli only at quiescent points
+        void gen_ops_c12()
+        {
+                std::vector<int> evs;
+                for (size_t i = 0; i < p.cmds.size(); i++)
+                        if (p.cmds[i].ev)
+                                evs.push_back((int)i);
+                int rounds = (int)r.range(2, 14);
+                faults_maybe();
+                for (int k = 0; k < rounds; k++) {
+                        double x = (double)r.below(1000) / 1000.0;
+                        if (x < 0.55) {
+                                bytes line = gen_line();
+                                if (r.chance(0.5)) {
+                                        // deliver in fragments with service calls in between
+                                        size_t pos = 0;
+                                        while (pos < line.size()) {
+                                                size_t n = (size_t)r.range(1, 6);
+                                                in_op(line.substr(pos, n));
+                                                pos += n;
+                                                if (r.chance(0.7))
+                                                        op(OP_SVC, r.range(0, 12));
+                                        }
+                                } else
+                                        in_op(line);
+                        } else if (x < 0.8 && !evs.empty()) {
+                                int burst = (int)r.range(1, p.qcap + 1);
+                                for (int b = 0; b < burst; b++)
+                                        op(OP_TRIG, evs[r.below(evs.size())], r.coin() ? CT_READ : CT_TEST);
+                        } else if (x < 0.87) {
+                                op(OP_HEXIT, (int64_t)r.below(2));
+                        } else if (x < 0.93) {
+                                int ci = (int)r.below(p.cmds.size());
+                                if (!p.cmds[(size_t)ci].ev && p.cmds[(size_t)ci].registered)
+                                        op(OP_FLAG, 0, ci, (int64_t)r.below(2));
+                        } else
+                                faults_maybe();
+                        op(OP_QUIESCE, 200000);
+                }
+                op(OP_DRAIN);
+        }
+
+        // ------------------------------------------------------------ C20: whole lines, holds released at once
+        void gen_ops_c20()
+        {
+                int nlines = (int)r.range(2, 10);
+                faults_maybe();
+                bytes batch;
+                auto flush = [&]() {
+                        if (batch.empty())
+                                return;
+                        in_op(batch);
+                        batch.clear();
+                        if (r.chance(0.5))
+                                op(OP_SVC, r.range(0, 30));
+                };
+                for (int k = 0; k < nlines; k++) {
+                        bytes line = gen_line();
+                        // track the model to know whether this line suspends the parser
+                        bool holds = false;
+                        size_t st = 0;
+                        while (st < line.size()) {
+                                size_t lf = line.find('\n', st);
+                                if (lf == bytes::npos)
+                                        break;
+                                std::vector<Item> items = simulate_line(ms, line.substr(st, lf - st));
+                                for (auto &it : items)
+                                        holds |= it.kind == Item::HOLDWAIT;
+                                st = lf + 1;
+                                if (holds && st < line.size()) {
+                                        // keep the suspending line last in its input op
+                                        line.resize(st);
+                                        break;
+                                }
+                        }
+                        batch += line;
+                        if (holds) {
+                                flush();
+                                op(OP_QUIESCE, 200000);
+                                op(OP_HEXIT, (int64_t)r.below(2));
+                                op(OP_QUIESCE, 200000);
+                        } else if (r.chance(0.5))
+                                flush();
+                        if (batch.empty() && r.chance(0.15)) {
+                                int ci = (int)r.below(p.cmds.size());
+                                const CmdSpec &c = p.cmds[(size_t)ci];
+                                if (!c.vars.empty() && !c.ev) {
+                                        op(OP_QUIESCE, 200000);
+                                        int vi = (int)r.below(c.vars.size());
+                                        Op o;
+                                        o.kind = OP_SETVAR;
+                                        o.a = ci;
+                                        o.b = vi;
+                                        o.data = rand_value(c.vars[(size_t)vi]);
+                                        p.ops.push_back(o);
+                                        ms.vals[(size_t)ci][(size_t)vi] = o.data;
+                                        ms.havoc[(size_t)ci][(size_t)vi] = 0;
+                                } else if (c.registered && !c.ev) {
+                                        op(OP_QUIESCE, 200000);
+                                        int val = (int)r.below(2);
+                                        op(OP_FLAG, 0, ci, val);
+                                        ms.cmd_dis[(size_t)ci] = (char)val;
+                                }
+                        }
+                        if (r.chance(0.1))
+                                faults_maybe();
+                }
+                flush();
+                op(OP_DRAIN);
+        }
+
+        // ------------------------------------------------------------ C10: exhaustive code sequences up to length 6
+        static const int C10_TERMS = 10;
+        static const uint64_t C10_ENUM = 63 * 10 * 6;
+        void force_c10(uint64_t idx)
+        {
+                static const int terms[C10_TERMS] = {RC_ERROR, RC_DATA_OK, RC_OK, RC_HOLD, RC_HOLD_EXIT_OK, RC_HOLD_EXIT_ERROR, RC_PRINT_CMD_LIST_OK, -2, 9, 1000};
+                int slot = (int)(idx % 6); // 0..3 command FSM kinds, 4/5 event FSM read/test
+                uint64_t rest = idx / 6;
+                int term = terms[rest % C10_TERMS];
+                rest /= C10_TERMS;
+                // prefixes over {NEXT, DATA_NEXT} of length 0..5: 63 of them
+                int len = 0;
+                uint64_t base = 0;
+                while (rest >= base + (1ULL << len)) {
+                        base += 1ULL << len;
+                        len++;
+                }
+                uint64_t bits = rest - base;
+                std::vector<Step> sc;
+                for (int i = 0; i < len; i++) {
+                        Step st;
+                        st.code = (bits >> i) & 1 ? RC_DATA_NEXT : RC_NEXT;
+                        sc.push_back(st);
+                }
+                Step last;
+                last.code = term;
+                sc.push_back(last);
+                bool ev = slot >= 4;
+                int kind = ev ? (slot == 4 ? K_READ : K_TEST) : slot;
+                if (ev && term == RC_HOLD)
+                        sc.back().code = RC_ERROR; // HOLD from an event handler is outside every property
+                // bump a variable in every step so that a stale response buffer would be visible
+                CmdSpec c;
+                c.name = ev ? "%SEQ" : "+SEQ";
+                int nv = (int)r.range(0, 3);
+                for (int v = 0; v < nv; v++) {
+                        VarSpec vs = gen_var(false);
+                        if (vs.type <= T_HEX && vs.size != 1 && vs.size != 2 && vs.size != 4) {
+                                vs.size = 2;
+                                vs.init = rand_value(vs);
+                        }
+                        c.vars.push_back(vs);
+                }
+                if (nv > 0)
+                        for (auto &st : sc)
+                                if (r.coin()) {
+                                        st.act = A_BUMP;
+                                        st.a = (int)r.below((uint64_t)nv);
+                                }
+                c.h[kind] = true;
+                c.script[kind] = sc;
+                if (ev) {
+                        c.ev = 1;
+                        c.registered = false;
+                        p.cmds.push_back(c);
+                        ms.init(p);
+                        // trigger it first thing
+                        Op o;
+                        o.kind = OP_TRIG;
+                        o.a = (int64_t)p.cmds.size() - 1;
+                        o.b = kind == K_READ ? CT_READ : CT_TEST;
+                        p.ops.insert(p.ops.begin(), o);
+                } else {
+                        c.group = 0;
+                        // make it reachable: unique name, not shadowed
+                        for (auto &o : p.cmds)
+                                if (upper(o.name).compare(0, 4, "+SEQ") == 0 || o.implicit)
+                                        o.disable = true;
+                        p.cmds.insert(p.cmds.begin(), c);
+                        p.groups[0].disable = false;
+                        // indices shifted by one: remap ops and script actions
+                        for (auto &o : p.ops) {
+                                if (o.kind == OP_TRIG || o.kind == OP_QBUF || o.kind == OP_SETVAR || o.kind == OP_ROUNDTRIP)
+                                        o.a++;
+                                else if (o.kind == OP_FLAG && o.a == 0)
+                                        o.b++;
+                        }
+                        for (auto &cc : p.cmds)
+                                for (int k = 0; k < 4; k++)
+                                        for (auto &st : cc.script[k])
+                                                if (st.act == A_TRIG)
+                                                        st.a++;
+                        static const char *suffix[4] = {"=", "?", "", "=?"};
+                        bytes line = "AT+SEQ" + std::string(suffix[kind]);
+                        if (kind == K_WRITE && nv > 0) {
+                                for (int v = 0; v < nv; v++) {
+                                        if (v)
+                                                line += ",";
+                                        line += gen_arg(c.vars[(size_t)v], true);
+                                }
+                        }
+                        line += r.coin() ? "\r\n" : "\n";
+                        Op o;
+                        o.kind = OP_IN;
+                        o.data = line;
+                        p.ops.insert(p.ops.begin(), o);
+                        if ((p.registered_count() + 3) / 4 > p.cmd_cap()) {
+                                if (p.shared)
+                                        p.buf_size += 2;
+                                else
+                                        p.buf_size += 1;
+                        }
+                        ms.init(p);
+                }
+        }
 };
 
 void knobs_for(const std::string &prop, Knobs &K, Rng &r)
@@ -887,6 +1269,22 @@ void knobs_for(const std::string &prop, Knobs &K, Rng &r)
                 K.p_disable = 0.2;
                 K.p_only_test = 0.2;
                 K.p_badcode = 0.3;
+        } else if (prop == "C16") {
+                K.p_mutex = 1.0;
+                K.min_lines = 1;
+                K.max_lines = 3;
+                K.max_svc_gap = 10;
+                K.p_phases = 0.0;
+                K.p_faults = 0.4;
+                K.max_cmds = 4;
+                K.p_many_cmds = 0;
+                K.p_events = 0.8;
+                K.p_hold = 0.2;
+                K.p_handler = 0.7;
+                K.p_probe_ok = 0.2;
+                K.p_small_cap = 0.6;
+                K.p_large_cap = 0.0;
+                K.p_hexit_ops = 0.3;
         } else if (prop == "C03") {
                 K.p_small_cap = 0.6;
                 K.p_overlong = 0.25;
@@ -899,11 +1297,7 @@ void knobs_for(const std::string &prop, Knobs &K, Rng &r)
 
 } // namespace
 
-uint64_t gen_enum_count(const std::string &prop)
-{
-        (void)prop;
-        return 0;
-}
+uint64_t gen_enum_count(const std::string &prop) { return prop == "C10" ? 63 * 10 * 6 : 0; }
 
 Plan gen_plan(const std::string &prop, uint64_t seed, uint64_t idx, int qcap)
 {
@@ -912,13 +1306,31 @@ Plan gen_plan(const std::string &prop, uint64_t seed, uint64_t idx, int qcap)
         g.p.prop = prop;
         g.p.seed = seed;
         g.p.idx = idx;
-        g.gen_world(qcap);
-        g.gen_ops();
+        if (prop == "C03" && idx % 3 == 2)
+                g.p.prop = "C03R";
+        if (prop == "C07") {
+                g.gen_c07(qcap, idx);
+        } else {
+                g.gen_world(qcap);
+                if (prop == "C12")
+                        g.gen_ops_c12();
+                else if (prop == "C20")
+                        g.gen_ops_c20();
+                else
+                        g.gen_ops();
+                if (prop == "C10" && idx < gen_enum_count(prop))
+                        g.force_c10(idx);
+                if (g.p.prop == "C03R")
+                        g.robustness_extras();
+        }
         std::string why;
         if (!plan_valid(g.p, why)) {
                 // generator bug: make it loud but deterministic
+                fprintf(stderr, "generator produced invalid plan (%s) prop=%s seed=%llu idx=%llu\n", why.c_str(), prop.c_str(), (unsigned long long)seed, (unsigned long long)idx);
                 g.p.ops.clear();
-                fprintf(stderr, "generator produced invalid plan (%s) seed=%llu idx=%llu\n", why.c_str(), (unsigned long long)seed, (unsigned long long)idx);
+                Op o;
+                o.kind = OP_DRAIN;
+                g.p.ops.push_back(o);
         }
         return g.p;
 }
